@@ -896,6 +896,9 @@ class Interp:
         if op in ("is", "is not") and b == NONE and a[0] in ("const", "tuple", "list", "dict", "bin", "call") and a != NONE:
             if a[0] != "call":
                 return C(op == "is not")
+        if a == b and op in ("==", "!=", "<=", ">=", "<", ">") and not any(x[0] in ("call", "mu", "unknown", "undef") for x in walk(a)):
+            # the same pure value on both sides (no call that could differ between two evaluations)
+            return C(op in ("==", "<=", ">="))
         if is_const(a) and not is_const(b) and op in ("==", "!=", "<", "<=", ">", ">=") and a != NONE:
             # canonical orientation: the literal on the right (1 == n  ->  n == 1, 5 < n  ->  n > 5)
             return ("cmp", {"==": "==", "!=": "!=", "<": ">", "<=": ">=", ">": "<", ">=": "<="}[op], b, a)
